@@ -3,7 +3,6 @@
 package pfcp
 
 import (
-	"fmt"
 	"net"
 	"sync"
 
@@ -42,10 +41,6 @@ func (l *zzLoop) feed(b []byte, from net.Addr) {
 	zzYield()
 }
 
-func (l *zzLoop) expire(t TransType, from net.Addr, seq uint32) {
-	l.s.NotifyTransTimeout(t, fmt.Sprintf("%s-%d", from, seq))
-	zzYield()
-}
 
 type zzEffects struct {
 	sessions, nodes, calls, sent, rx int
@@ -70,21 +65,23 @@ type zzTemplate struct {
 	seen bool
 	rsp  []byte
 	has  bool
+	id   string // the implementation's own id of this key's transaction, once one has existed
+	hasID bool
 }
 
 func zzMkTemplate(name string) *zzTemplate {
 	t := &zzTemplate{}
 	t.kind = nondetChoice(name+"-kind", 5)
-	t.src = nondetChoice(name+"-src", 2)
+	t.src = nondetChoice(name+"-src", 3) // peer A, peer B, or another endpoint on A's host
 	t.seq = zzSeq24(name + "-seq")
 	var m message.Message
 	switch t.kind {
 	case 0:
 		m = zzHbReq(t.seq)
 	case 1:
-		m = zzAssocReq(t.seq, zzNodeID(t.src))
+		m = zzAssocReq(t.seq, zzNodeID(t.src&1))
 	case 2:
-		m = zzEstReq(t.seq, ie.NewNodeID(zzNodeID(t.src), "", ""), ie.NewFSEID(0x77, []byte{127, 0, 0, 1}, nil), ie.NewCreateFAR(ie.NewFARID(1), ie.NewApplyAction(2)))
+		m = zzEstReq(t.seq, ie.NewNodeID(zzNodeID(t.src&1), "", ""), ie.NewFSEID(0x77, []byte{127, 0, 0, 1}, nil), ie.NewCreateFAR(ie.NewFARID(1), ie.NewApplyAction(2)))
 	case 3:
 		m = zzDelReq(1, t.seq)
 	case 4:
@@ -129,7 +126,6 @@ func zzC06(depth int) {
 		tm[1] = tm[0]
 		zzCover("C06.same-key")
 	}
-	expired := 0
 	for step := 0; step < depth; step++ {
 		ev := nondetChoice("event", 4)
 		t := tm[ev&1]
@@ -154,6 +150,9 @@ func zzC06(depth int) {
 			} else {
 				// first copy (or first after the window elapsed): executed
 				zzAssert("C06.first.bookkeeping-created", after.rx == before.rx+1)
+				if rx := zzFindRx(l.s, zzAddr(t.src), t.seq); rx != nil {
+					t.id, t.hasID = rx.id, true
+				}
 				t.seen = true
 				t.has = after.sent == before.sent+1
 				zzAssert("C06.first.at-most-one-response", after.sent <= before.sent+1)
@@ -176,17 +175,21 @@ func zzC06(depth int) {
 		} else {
 			// time passes: the retention timer of this key fires - if the code armed one. A timer that
 			// was never armed (or was stopped) cannot fire, so the expiry is injected only then.
-			rx, ok := l.s.rxTrans[fmt.Sprintf("%s-%d", zzAddr(t.src), t.seq)]
-			armed := ok && rx.timer != nil
-			if armed || !t.seen {
-				l.expire(RX, zzAddr(t.src), t.seq)
+			rx := zzFindRx(l.s, zzAddr(t.src), t.seq)
+			armed := rx != nil && rx.timer != nil
+			if armed {
+				zzFireTimer(rx.timer) // the real timer: its callback posts the timeout under the real id
+				zzYield()
+			} else if !t.seen && t.hasID {
+				// a stale expiry: the callback of an earlier transaction of this key, already on its way
+				l.s.NotifyTransTimeout(RX, t.id)
+				zzYield()
 			}
 			after := l.effects()
 			zzAssert("C06.expiry.no-side-effect", after.sessions == before.sessions && after.nodes == before.nodes && after.calls == before.calls && after.sent == before.sent)
 			if t.seen {
 				zzAssert("C06.expiry.retention-timer-armed", armed)
 				zzAssert("C06.expiry.bookkeeping-released", after.rx == before.rx-1)
-				expired++ // this key's timer has fired (the harness injected its expiry); it is not stopped later
 				zzCover("C06.expiry")
 			} else {
 				zzAssert("C06.expiry.unknown-key-ignored", after.rx == before.rx)
@@ -196,7 +199,7 @@ func zzC06(depth int) {
 	}
 	l.stop()
 	if zzTimersActive() >= 0 {
-		zzAssert("C06.stop.timers-stopped", zzTimersActive() == expired)
+		zzAssert("C06.stop.timers-stopped", zzTimersActive() == 0)
 		zzAssert("C06.stop.goroutines-ended", zzGoroutines() == 0)
 	}
 	zzCover("C06.done")
@@ -251,9 +254,9 @@ func zzC06UnansweredThenAnswerable() {
 		zzAssert("C06.unanswered.bookkeeping-kept", d.rx == mid.rx)
 	}
 	// the window elapses
-	rx, ok := l.s.rxTrans[fmt.Sprintf("%s-%d", zzAddr(src), s1)]
-	zzAssert("C06.unanswered.still-retained", ok)
-	if ok {
+	rx := zzFindRx(l.s, zzAddr(src), s1)
+	zzAssert("C06.unanswered.still-retained", rx != nil)
+	if rx != nil {
 		zzAssert("C06.unanswered.retention-timer-armed", zzFireTimer(rx.timer))
 		zzYield()
 		e := l.effects()
